@@ -95,6 +95,7 @@ type Interp struct {
 	nondets   []*Term
 	nondetNames map[string]bool
 	fpBits    map[*Term]*Term // fp term -> bits var
+	fpBitsByKey map[string]*Term
 	depth     int
 	MaxDepth  int
 	curFrame  *Frame
